@@ -16,7 +16,7 @@ NOT_COVERED = {
     "C12": ["public functions not listed under functions_under_contract", _SIMD, "alignment faults (not modelled by CBMC)"],
     "C13": ["box easy/detached (forward to secretbox)", "AEGIS, AES-GCM", "vectorised stream cores (stride-wise in-place safety)", "secretbox / sign / sign_open overlap is bounded: lengths <= 80, 13 resp. 8 relative offsets"],
     "C14": ["x86-64 adc/sbb assembly fast paths of sodium_increment/add (len 8, 12, 24) and sodium_sub (len 64)", "explicit_bzero / pmovmskb128 are assumed models"],
-    "C15": ["functional exactness of the decoders beyond 8-character texts (memory safety / frame / capacity are unbounded)"],
+    "C15": ["decoder completeness (which texts are ACCEPTED) and the ignore-set / padded modes beyond 8-character texts: bounded only (decoder soundness in strict mode, decoder memory safety / frame / capacity and both encoders are unbounded)"],
     "C16": ["sodium_pad for block sizes > 130 that are not powers of two (bounded only)", "unpad completeness for block sizes > 136 (quick) / 256 (thorough)"],
     "C17": ["operating-system page-protection semantics (assumed)", "allocarray overflow for count > 64 and size > 64 (elementary lemma)"],
     "C18": ["randombytes_internal / sysrandom sources themselves", "statistical uniformity (only the exact rejection rule is decided)", "randombytes_uniform for bounds other than n <= 31 and the nine listed constants"],
